@@ -7,6 +7,7 @@ mod core;
 mod e2e;
 mod gen;
 mod known;
+mod miri;
 mod mon;
 mod oracle;
 mod rng;
